@@ -69,7 +69,9 @@ var dClients = []struct {
 	{mC3, []byte("idA")},
 	{mC3, []byte("idB")},
 	{mC4, nil},
-	{mC5, []byte{1, 0xaa, 0xbb, 0xcc, 0xdd, 0xee, 0xff}},
+	// a long client identifier (RFC 4361 style DUID, 52 octets): replies that echo it carry more than the 60 bytes
+	// of options that fit the 300-byte BOOTP minimum
+	{mC5, append([]byte{255, 0xaa, 0xbb, 0xcc, 0xdd, 0, 2}, bytes.Repeat([]byte{0xd1, 0x1d}, 22)...)},
 }
 
 const dN = 6 // number of client identities
